@@ -1181,12 +1181,11 @@ theorem facts_sound (c : Cluster) (s : Strategy) (ns : String) (ref : Ref) (w : 
 theorem adm_parts (c : Cluster) (h : admissible c = true) :
     c.cloneSets.all (·.replicas.isSome) = true ∧ c.deployments.all (·.replicas.isSome) = true ∧
     c.replicaSets.all (·.replicas.isSome) = true ∧ c.nativeSts.all (·.replicas.isSome) = true ∧
-    c.kruiseSts.all (·.replicas.isSome) = true ∧
-    c.unstructured.all (fun u => u.updateRevision != .wrongType && u.currentRevision != .wrongType) = true := by
+    c.kruiseSts.all (·.replicas.isSome) = true := by
   unfold admissible at h
   simp only [Bool.and_eq_true] at h
-  obtain ⟨⟨⟨⟨⟨h1, h2⟩, h3⟩, h4⟩, h5⟩, h6⟩ := h
-  exact ⟨h1, h2, h3, h4, h5, h6⟩
+  obtain ⟨⟨⟨⟨h1, h2⟩, h3⟩, h4⟩, h5⟩ := h
+  exact ⟨h1, h2, h3, h4, h5⟩
 
 theorem afterGet_panic {α : Type} (g : GetR α) (parse : α → Option Info) (h : afterGet g parse = .panic) :
     ∃ x, g = .found x ∧ parse x = none := (afterGet_out g parse _ h).2.2 rfl
@@ -1194,7 +1193,7 @@ theorem afterGet_panic {α : Type} (g : GetR α) (parse : α → Option Info) (h
 /-- the StatefulSet-like finder never panics on admissible objects -/
 theorem stsLike_panic (c : Cluster) (ns : String) (ref : Ref) (h : getStatefulSetLikeWorkload c ns ref = .panic)
     (hadm : admissible c = true) : False := by
-  obtain ⟨h1, h2, h3, h4, h5, h6⟩ := adm_parts c hadm
+  obtain ⟨h1, h2, h3, h4, h5⟩ := adm_parts c hadm
   unfold getStatefulSetLikeWorkload at h
   split at h
   · cases h
@@ -1215,10 +1214,7 @@ theorem stsLike_panic (c : Cluster) (ns : String) (ref : Ref) (h : getStatefulSe
   · have := all_mem h5 (lookup_mem _ _ _ _ _ (get_found _ _ _ _ _ _ _ hx))
     unfold stsInfo at hp
     cases hr : x.replicas <;> simp_all
-  · have hm := List.mem_of_find?_eq_some (getUnstr_found _ _ _ _ _ hx)
-    have := all_mem h6 hm
-    unfold parseUnstr at hp
-    cases hu : x.updateRevision <;> cases hc : x.currentRevision <;> simp_all [UF.str?]
+  · simp [parseUnstr] at hp     -- an unstructured object always parses
 
 theorem firstHit_mem (l : List Out) (o : Out) (h : firstHit l = o) (hne : o ≠ .nothing) : o ∈ l := by
   induction l with
@@ -1233,7 +1229,7 @@ theorem firstHit_mem (l : List Out) (o : Out) (h : firstHit l = o) (hne : o ≠ 
 
 theorem run_no_panic (c : Cluster) (ns : String) (ref : Ref) (f : FinderId)
     (hadm : admissible c = true) : runFinder c ns ref f ≠ .panic := by
-  obtain ⟨h1, h2, h3, h4, h5, h6⟩ := adm_parts c hadm
+  obtain ⟨h1, h2, h3, h4, h5⟩ := adm_parts c hadm
   intro h
   cases f with
   | cloneSet => exact cloneSet_no_panic c ns ref h1 h
